@@ -551,17 +551,15 @@ def r10_reader_offsets(cx):
     g = layout.find_parse(F, "reader::directory_pack::layout::Layout")
     gb = F.body(g)
     news = gb.calls(r"layout::properties::Properties::new$")
-    ok = len(news) == 2
+    ok = len(news) >= 2
     if ok:
-        consts = sorted((op_const_val(t["args"][0]) is not None, i) for i, t in news)
         common = [t for i, t in news if op_const_val(t["args"][0]) == 0]
         variant = [t for i, t in news if op_const_val(t["args"][0]) is None]
-        ok = len(common) == 1 and len(variant) == 1
+        ok = len(common) == 1 and len(variant) >= 1 and len(common) + len(variant) == len(news)
         if ok:
-            # variant part starts after the common part and the 1-byte variant id
-            vo = gb.origins(variant[0]["args"][0])
+            # variant part starts after the common part and the 1-byte variant id (at every site that completes a variant)
             plus1 = any(s["k"] == "assign" and s["rv"]["k"] == "bin" and s["rv"]["op"] in ("Add", "AddWithOverflow") and op_const_val(s["rv"]["b"]) == 1 for blk in gb.blocks for s in blk["s"])
-            ok = ("field", "size") in vo and plus1
+            ok = plus1 and all(("field", "size") in gb.origins(t["args"][0]) for t in variant)
     cx.ob("R10", "R10/Layout.parse-parts", ok, g, "Layout::parse: common properties start at 0, every variant starts at common size + 1 (the variant id byte)")
 
 
@@ -596,9 +594,17 @@ def r11_variant_end_agrees(cx):
         on_marker = any(any(x[0] == "call" and call_is(gb.term(x[1]), r"RawProperty::is_variant_id$") for x in gb.origins(gb.term(sblk)["op"])) and
                         not any(x[0] == "call" and call_is(gb.term(x[1]), r"Ord>::cmp$") for x in gb.origins(gb.term(sblk)["op"])) for sblk in cds) and \
             not any(any(x[0] == "call" and call_is(gb.term(x[1]), r"Ord>::cmp$") for x in gb.origins(gb.term(sblk)["op"])) for sblk in cds)
-        if not (looks_ahead or on_marker):
+        after_loop = i not in gb.reach_after(i)      # completion after the loop over the properties: the end has been met
+        if not (looks_ahead or on_marker or after_loop):
             ok = False
             why.append(t.get("ln"))
+    # a variant may have NO stored property at all (no property, or only constant columns, in a store whose variant part
+    # is 0 bytes wide): it can only be completed by what follows it -- some completion site must not depend on a
+    # property having been pushed in the same iteration
+    dp = {i for i, _ in gb.calls(r"Vec::<reader::directory_pack::raw_layout::RawProperty>::push$|Vec::<.*RawProperty>::push$")}
+    free = [t.get("ln") for i, t in push if not any(gb.dominates(d, i) for d in dp)]
+    cx.ob("R11", "R11/reader/empty-variant-can-complete", bool(dp) and bool(free), g,
+          "a variant without stored property is completed when the next VariantId or the end of the properties is met (completion sites that do not need a property pushed first: lines %s)" % free)
     cx.ob("R11", "R11/reader/variant-closed-on-what-follows", ok, g,
           "Layout::parse completes a variant only after looking at what follows it (next VariantId / end), not on the running size alone (completions decided by the size only: lines %s)" % why)
 
@@ -640,5 +646,5 @@ RULES = [
     ("R8", r8_width_covers, 3),
     ("R9", r9_dedup_index, 1),
     ("R10", r10_reader_offsets, 2),
-    ("R11", r11_variant_end_agrees, 2),
+    ("R11", r11_variant_end_agrees, 3),
 ]
